@@ -12,12 +12,11 @@ ENTRY = {'coq_dir': 'C07',
          'that arrived on every channel are compared with the extracted model. (ii) end to end, one scenario per 12 (quick) / 15 (thorough) '
          'report-level cases, 24 in parallel: two real nodes over loopback TCP or (one in three) WebSocket through a cuttable proxy, each with 1-3 common user '
          'protocols, one user protocol only it has, a notification and a request-response protocol; fault script of 1-9 steps: a protocol '
-         'exits / a handle is dropped (before or after connect, or during the handshake: either order is accepted, the outcome is handed to the model), connect, open a substream (also for a protocol that has exited on the other '
+         'exits / a handle is dropped (before or after connect, or during the handshake: either order is accepted), connect, open a substream (also for a protocol that has exited on the other '
          'side, also unsupported by the other side, also open-and-exit-at-once), force-close, cut the link, idle expiry (keep-alive 1 s), '
          'shut the remote node down, re-connect, dial a dead node; after every step (settled: first event, then 200 ms of quiet) the new '
          'events of every observer (application and every user protocol of both nodes) are compared with the model, at the end both '
-         "applications call dial(peer). Where a HashMap order decides (which protocols are served before a failed send) the harness hands "
-         'the implementation\'s choice to the model, which validates it. Non-trivial: trace >= 8 numbers; distinct (case, trace) pairs.',
+         'applications call dial(peer). Non-trivial: trace >= 8 numbers; distinct (case, trace) pairs.',
  'level_text': 'Proof + translation validation + skeleton tie. Proved for the connection-task model, for every event history and every '
                'moment at which protocols exit: when the loop ends the manager and every still-running protocol are told closed exactly once, '
                'protocols before the manager, nothing afterwards, nothing while it runs; the loop ends exactly on the termination causes '
@@ -26,7 +25,7 @@ ENTRY = {'coq_dir': 'C07',
                'for a connection it was told about, and the peer can then be dialed; and the node composition discharges the manager\'s '
                'environment assumption for every Closed/AcceptDone the tasks generate. The exit table of the model is proved equal to the list '
                'of `?`/`return`/`Ok(true)` sites extracted from tcp/connection.rs on every run, and likewise the separate tables of the one-function '
-               'websocket and quic loops. Known finding F-C07b (class 1) is excluded.',
+               'websocket and quic loops. No known-finding class is left (F-C07a and F-C07b are repaired).',
  'level_note': 'Trusted: Coq kernel, extraction, harness, the regex-level extractor. TCP and WebSocket are exercised end to end by ./check; the '
                'QUIC loop is repaired and tied by its exit table, its end-to-end stream is run by hand (tools/c07_quic_stream.sh: the harness must '
                'be built with its optional quic feature; no link cut and no remote kill there). Thread interleavings between the '
@@ -40,5 +39,5 @@ ENTRY = {'coq_dir': 'C07',
                   '(deadlines 1.5-7 s); keep-alive is 60 s except in idle-expiry scenarios (1 s, at most one action before the wait)',
                   'transport contract assumed by the manager theorems (Caps.env_ok): a connection id is not reused while live'],
  'assumptions': ['single installed transport (TCP); one connection per peer pair at a time in the end-to-end scenarios',
-                 'known finding class 1 (F-C07b): connections established while a protocol of the node has exited'],
+                 'every live protocol eventually drains its event channel (back-pressure: a report waits for room)'],
  'nontrivial_min_trace': 8}
